@@ -65,6 +65,37 @@ theorem offeredAfter_id (sp : Spec α) (m : Machine σ α) (heff : ∀ b xs, sp.
     rw [offeredAfter, ih, allOffered_cons]
     cases op <;> simp [Spec.offeredBy, opInds, heff]
 
+theorem offeredAfter_sub (sp : Spec α) (m : Machine σ α) (ops : List (Op α)) :
+    ∀ (offered : List α) (s : σ) (x : α), x ∈ offered → x ∈ offeredAfter sp m offered s ops := by
+  induction ops with
+  | nil => intro offered s x h; exact h
+  | cons op ops ih => intro offered s x h; exact ih _ _ x (List.mem_append_left _ h)
+
+/-- individuals offered one by one (`add`) always count as offered, whatever `eff` does to batches -/
+theorem offeredAfter_adds (sp : Spec α) (m : Machine σ α) (xs : List α) (ops : List (Op α)) :
+    ∀ (offered : List α) (s : σ) (x : α), x ∈ xs → x ∈ offeredAfter sp m offered s (xs.map Op.add ++ ops) := by
+  induction xs with
+  | nil => intro _ _ x h; simp at h
+  | cons a as ih =>
+    intro offered s x h
+    simp only [List.map_cons, List.cons_append, offeredAfter]
+    rcases List.mem_cons.mp h with rfl | h1
+    · exact offeredAfter_sub sp m _ _ _ _ (by simp [Spec.offeredBy])
+    · exact ih _ _ x h1
+
+/-- operations other than `select` carry no tape -/
+def Op.isSelect : Op α → Bool
+  | .select _ => true
+  | _ => false
+
+theorem solveOps_no_select (initial : List α) (gens : List (List α × Stats)) :
+    ∀ op ∈ solveOps initial gens, Op.isSelect op = false := by
+  intro op h
+  simp only [solveOps, List.mem_append, List.mem_map, List.mem_flatMap] at h
+  rcases h with ⟨x, _, rfl⟩ | ⟨g, _, hg⟩
+  · rfl
+  · simp at hg; rcases hg with rfl | rfl <;> rfl
+
 section
 variable [DecidableEq α]
 
